@@ -389,8 +389,114 @@ impl Part for DecodeSide {
     }
 }
 
+
+// ------------------------------------------------------------------ the one text field that is not written by the codepage writer
+/// IS_VER's `Version[8]` is the printed form of a `GameVersion`, whose fields are public: number, letter (any `char`) and
+/// revision. Whatever they hold, the field is the printed form cut to 8 bytes and NUL-padded, and `Product[6]`, `InSimVer` and
+/// the spare byte follow at their fixed offsets in a 20-byte packet.
+#[derive(Clone, Debug)]
+pub struct VerCase {
+    pub major_bits: u32,
+    pub minor: char,
+    pub patch: Option<u64>,
+    pub product: String,
+    pub compressed: bool,
+}
+
+pub struct BuiltVerField;
+impl Part for BuiltVerField {
+    type Case = VerCase;
+    fn name(&self) -> &'static str {
+        "hand-built-version-field"
+    }
+    fn check(&self, c: &VerCase, ev: &mut Local) -> Result<(), Fail> {
+        let major = f32::from_bits(c.major_bits);
+        if !major.is_finite() {
+            ev.class("number not finite: skipped");
+            return Ok(());
+        }
+        let mode = if c.compressed { Mode::Compressed } else { Mode::Uncompressed };
+        let mut v = insim::insim::Ver::default();
+        v.reqi = insim::identifiers::RequestId(1);
+        v.version = insim_core::game_version::GameVersion { major, minor: c.minor, patch: c.patch.map(|p| p as usize) };
+        v.product = c.product.clone();
+        v.insimver = 9;
+        let shown = guard(|| v.version.to_string()).map_err(|p| Fail::new("c11:panic", format!("printing {:?}: {p}", v.version)))?;
+        let what = format!("Ver {{ version: {:?} (prints {shown:?}), product: {:?} }} ({})", v.version, c.product, mode_name(&mode));
+        let frame = match encode_one(&insim::Packet::Ver(v), &mode) {
+            Ok(f) => f,
+            Err(e) if e.contains("panicked") => fail!("c11:panic:Ver.version", "{what}: {e}"),
+            Err(_) => {
+                ev.class("refused");
+                return Ok(());
+            },
+        };
+        let mut want = vec![if c.compressed { 5 } else { 20 }, 2, 1, 0];
+        let mut field = shown.as_bytes()[..shown.len().min(8)].to_vec();
+        field.resize(8, 0);
+        want.extend_from_slice(&field);
+        let mut product = c.product.as_bytes()[..c.product.len().min(6)].to_vec();
+        product.resize(6, 0);
+        want.extend_from_slice(&product);
+        want.extend_from_slice(&[9, 0]);
+        ensure!(frame.len() == 20, "c11:fixed-field-width:Ver.version", "{what}: the packet is {} bytes, not 20: {}", frame.len(), hex(&frame));
+        ensure!(frame == want, "c11:fixed-field-bytes:Ver.version", "{what}: encoded as {}, expected {}", hex(&frame), hex(&want));
+        let straddles = shown.len() > 8 && !shown.is_char_boundary(8);
+        ev.class(if straddles {
+            "a multi-byte character lies across the end of the field"
+        } else if shown.len() > 8 {
+            "printed form longer than the field"
+        } else if !shown.is_ascii() {
+            "multi-byte character inside the field"
+        } else {
+            "fits"
+        });
+        if shown.len() >= 8 || !shown.is_ascii() {
+            ev.nontrivial(&(c.major_bits, c.minor, c.patch, &c.product, c.compressed));
+        }
+        if ev.wants_sample() && straddles {
+            ev.sample(|| json!({"version": shown, "frame": hex(&frame)}));
+        }
+        Ok(())
+    }
+    fn to_json(&self, c: &VerCase) -> Value {
+        json!({"major_bits": c.major_bits, "major": f32::from_bits(c.major_bits).to_string(), "minor": c.minor.to_string(), "patch": c.patch, "product": c.product, "compressed": c.compressed})
+    }
+    fn from_json(&self, v: &Value) -> Option<VerCase> {
+        Some(VerCase {
+            major_bits: v.get("major_bits")?.as_u64()? as u32,
+            minor: v.get("minor")?.as_str()?.chars().next()?,
+            patch: v.get("patch").and_then(|r| r.as_u64()),
+            product: v.get("product")?.as_str()?.to_string(),
+            compressed: v.get("compressed")?.as_bool()?,
+        })
+    }
+}
+
+pub fn ver_field_strategy() -> impl Strategy<Value = VerCase> {
+    // numbers whose printed form has every length from 1 to 9 and beyond: d digits before the point, f after it
+    let major = prop_oneof![
+        6 => (0u32..5, 0u32..8, any::<u32>()).prop_map(|(d, f, r)| {
+            let int = if d == 0 { 0 } else { 10u32.pow(d - 1) + r % (9 * 10u32.pow(d - 1)) };
+            let text = if f == 0 { format!("{int}") } else { format!("{int}.{:0width$}", 1 + (r / 7) % (10u32.pow(f) - 1), width = f as usize) };
+            text.parse::<f32>().unwrap_or(0.7).to_bits()
+        }),
+        1 => any::<u32>(),
+        1 => Just(0.7f32.to_bits()),
+    ];
+    let minor = prop_oneof![
+        3 => (0u8..26).prop_map(|k| (b'A' + k) as char),
+        1 => (0u8..26).prop_map(|k| (b'a' + k) as char),
+        3 => prop::sample::select(vec!['\u{e9}', '\u{df}', '\u{44e}', '\u{3a9}', '\u{80}', '\u{7ff}', '\u{91d1}', '\u{20ac}', '\u{800}', '\u{ffff}', '\u{1d11e}', '\u{10000}', '\u{10ffff}']),
+        1 => any::<char>(),
+    ];
+    let patch = prop_oneof![3 => Just(None), 3 => (0u64..300).prop_map(Some), 1 => any::<u64>().prop_map(Some)];
+    let product = prop_oneof![3 => prop::sample::select(vec!["DEMO", "S1", "S2", "S3", ""]).prop_map(String::from), 1 => "[ -~]{0,9}"];
+    (major, minor, patch, product, any::<bool>()).prop_map(|(major_bits, minor, patch, product, compressed)| VerCase { major_bits, minor, patch, product, compressed })
+}
+
 pub fn parts() -> Vec<Box<dyn DynPart>> {
-    vec![Box::new(EncodeSide), Box::new(DecodeSide)]
+    vec![Box::new(EncodeSide), Box::new(DecodeSide), Box::new(BuiltVerField)]
 }
 
 pub fn run(run: &mut Run) {
@@ -487,4 +593,7 @@ pub fn run(run: &mut Run) {
     run.prop(&DecodeSide, raw, n);
     let n = run.budget(60_000, 2_000_000);
     run.prop(&DecodeSide, strat, n);
+    // (4) IS_VER built by hand around any version value
+    let n = run.budget(60_000, 2_000_000);
+    run.prop(&BuiltVerField, ver_field_strategy(), n);
 }
